@@ -55,6 +55,10 @@ def get_interp():
     global _I
     if _I is None:
         _I = Interp()
+    if _I.iban_error:
+        # without the per-country BBAN classes the national IBAN modules would be analysed against "any string": no verdict at all
+        from ..common import AnalysisError
+        raise AnalysisError('stdnum/iban.py: %s' % _I.iban_error)
     return _I
 
 
